@@ -320,13 +320,47 @@ fn run_pipeline(sink: &mut Sink, rng: &mut Rng, args: &Args, ndicts: usize, ntex
             users.push(urows.join("\n"));
         }
         let dir = args.work.join(format!("res{}", d));
-        let oov_l = rng.below(usize::min(nl, nr) as u64);
-        let oov_r = rng.below(usize::min(nl, nr) as u64);
+        let _ = std::fs::remove_dir_all(&dir);
+        let lim = usize::min(nl, nr) as u64;
+        let oov_l = rng.below(lim);
+        let oov_r = rng.below(lim);
+        let oov_c = rng.range(-2000, 20000);
+        // the word parameters every out-of-vocabulary candidate may carry: the configured templates, as written in the
+        // configuration (left id, right id, cost) -- not as found in the lattice
+        let mut templates: Vec<(u16, u16, i16)> = vec![(oov_l as u16, oov_r as u16, oov_c as i16)];
+        let mut providers = vec![];
+        if rng.chance(1, 2) {
+            // MeCab provider in front of the fallback: unk.def written here, one or two lines per category of the
+            // character definition, left id != right id so that a mix-up of the two cannot hide
+            let chardef = std::fs::read_to_string(format!("{}/char.def", res)).unwrap_or_default();
+            let mut unk = String::new();
+            for line in chardef.lines() {
+                let t = line.trim();
+                if t.is_empty() || t.starts_with('#') || t.starts_with("0x") {
+                    continue;
+                }
+                let name = t.split_whitespace().next().unwrap_or("");
+                if name.is_empty() {
+                    continue;
+                }
+                for _ in 0..1 + rng.below(2) {
+                    let l = rng.below(lim);
+                    let r = (l + 1 + rng.below(lim - 1)) % lim;
+                    let c = rng.range(-1500, 15000);
+                    unk.push_str(&format!("{},{},{},{},名詞,普通名詞,一般,*,*,*\n", name, l, r, c));
+                    templates.push((l as u16, r as u16, c as i16));
+                }
+            }
+            std::fs::create_dir_all(&dir).unwrap();
+            std::fs::write(dir.join("unk.def"), unk).unwrap();
+            providers.push(json!({"class": "com.worksap.nlp.sudachi.MeCabOovPlugin", "charDef": "char.def", "unkDef": "unk.def", "userPOS": "allow"}));
+        }
+        providers.push(json!({"class": "com.worksap.nlp.sudachi.SimpleOovPlugin",
+                "oovPOS": ["名詞", "普通名詞", "一般", "*", "*", "*"], "leftId": oov_l, "rightId": oov_r, "cost": oov_c}));
         let cfg = json!({
             "characterDefinitionFile": "char.def",
             "inputTextPlugin": [{"class": "com.worksap.nlp.sudachi.DefaultInputTextPlugin"}],
-            "oovProviderPlugin": [{"class": "com.worksap.nlp.sudachi.SimpleOovPlugin",
-                "oovPOS": ["名詞", "普通名詞", "一般", "*", "*", "*"], "leftId": oov_l, "rightId": oov_r, "cost": rng.range(-2000, 20000)}],
+            "oovProviderPlugin": providers,
         });
         let dict = match build_dictionary(&dir, &res, &matrix, &lex_csv, &users, &cfg) {
             Ok(d) => d,
@@ -446,6 +480,8 @@ fn run_pipeline(sink: &mut Sink, rng: &mut Rng, args: &Args, ndicts: usize, ntex
                     if (l as u16, r as u16, c) != (n.left_id, n.right_id, n.cost) && fail.is_none() {
                         fail = Some(format!("node for word {:?} carries ({},{},{}) but the lexicon says ({},{},{})", wid, n.left_id, n.right_id, n.cost, l, r, c));
                     }
+                } else if !templates.contains(&(n.left_id, n.right_id, n.cost)) && fail.is_none() {
+                    fail = Some(format!("out-of-vocabulary candidate {}..{} carries (left {}, right {}, cost {}) which is none of the configured templates {:?}", n.begin, n.end, n.left_id, n.right_id, n.cost, templates));
                 }
             }
             let totals: Vec<i32> = morph.iter().map(|m| m.2).collect();
